@@ -12,6 +12,20 @@ namespace SwimVerif.Handlers
 @[simp] theorem mapUpdate_eq (id : Nat) : Mod.mapUpdate id = Mod.of id := rfl
 @[simp] theorem mapRemove_eq (id : Nat) : Mod.mapRemove id = Mod.of id := rfl
 @[simp] theorem mapClear_eq (id : Nat) : Mod.mapClear id = Mod.of id := rfl
+@[simp] theorem mapTransform_eq (id : Nat) : Mod.mapTransform id = Mod.of id := rfl
+
+/-- The four arms of `transform_entry` as the lane operations they amount to. -/
+theorem xfM_cases (st : St) (m k : Nat) (f : Xf) :
+    (∃ v2, f.app (alGet (st.readM m) k) = some v2 ∧ st.xfM m k f = (st.updM m k v2, true)) ∨
+    (∃ v, f.app (alGet (st.readM m) k) = none ∧ alGet (st.readM m) k = some v ∧ st.xfM m k f = (st.remM m k, true)) ∨
+    (f.app (alGet (st.readM m) k) = none ∧ alGet (st.readM m) k = none ∧ st.xfM m k f = (st, false)) := by
+  unfold St.xfM
+  cases h1 : f.app (alGet (st.readM m) k) with
+  | some v2 => exact Or.inl ⟨v2, rfl, rfl⟩
+  | none =>
+    cases h2 : alGet (st.readM m) k with
+    | some v => exact Or.inr (Or.inl ⟨v, rfl, rfl, rfl⟩)
+    | none => exact Or.inr (Or.inr ⟨rfl, rfl, rfl⟩)
 
 /-! ### every `Continue` makes the handler smaller -/
 
@@ -70,6 +84,11 @@ theorem step_size (h : H) : ∀ (st : St) (m : Option Mod), (step st h).2.2 = .c
     intro st m hc
     exact wrapStep_size .optSome none (step st a) a m
       (by intro x hx; simp [size]; omega) (by intro h hh; cases hh) (ih st) hc
+  | remMulti mm keys =>
+    intro st m hc
+    cases keys with
+    | nil => simp [step] at hc
+    | cons k rest => simp [step, size]
   | _ => intro st m hc; simp [step] at hc <;> simp [step, size]
 
 /-! ### fuel irrelevance -/
@@ -209,6 +228,25 @@ theorem run_seqCons (trig : Trig) (a t : H) (st : St) :
   rw [h1, ← runLoop_eq_run trig (size (H.seqRun a t) + 2) (.seqRun a t) st (by omega)]
   simp only [runLoop, step]
 
+/-- `MapLaneRemoveMultiple`: one removal, the handlers it triggers run to completion, then the remaining keys. -/
+theorem run_remMulti_cons (trig : Trig) (m k : Nat) (rest : List Nat) (st : St) :
+    run trig (.remMulti m (k :: rest)) st =
+      seqThen (trig (mid m) ((st.remM m k).addDirty (mid m))) (run trig (.remMulti m rest)) := by
+  have hrun : ∀ s, runLoop trig (rest.length + 2) (.remMulti m rest) s = run trig (.remMulti m rest) s :=
+    fun s => rfl
+  have hsz : size (H.remMulti m (k :: rest)) + 1 = (rest.length + 2) + 1 := by simp [size]
+  unfold run
+  rw [hsz]
+  generalize rest.length + 2 = N at hrun ⊢
+  simp only [runLoop, step, afterMod, mapRemove_eq, Mod.of, if_true]
+  rcases trig (mid m) ((st.remM m k).addDirty (mid m)) with ⟨st', o⟩
+  cases o with
+  | ok => exact hrun st'
+  | err e => rfl
+
+theorem run_remMulti_nil (trig : Trig) (m : Nat) (st : St) : run trig (.remMulti m []) st = (st, .ok) := by
+  simp [run, runLoop, step, afterMod]
+
 /-! ### the loop computes the reference -/
 
 theorem run_eq_eval (trig : Trig) (h : H) : ∀ st, run trig h st = eval trig h st := by
@@ -221,6 +259,20 @@ theorem run_eq_eval (trig : Trig) (h : H) : ∀ st, run trig h st = eval trig h 
   | mrem m k => intro st; simp [run, runLoop, step, afterMod, eval, Mod.of]
   | mclr m => intro st; simp [run, runLoop, step, afterMod, eval, Mod.of]
   | mgetLog m k => intro st; simp [run, size, runLoop, step, afterMod, eval, wrapStep]
+  | mxf m k f =>
+    intro st
+    simp only [run, runLoop, step, eval]
+    cases (st.xfM m k f).2 <;> simp [afterMod, Mod.of]
+  | mwithLog m k => intro st; simp [run, size, runLoop, step, afterMod, eval, wrapStep]
+  | remMulti m keys =>
+    intro st
+    simp only [eval]
+    induction keys generalizing st with
+    | nil => rw [run_remMulti_nil]; rfl
+    | cons k rest ih =>
+      rw [run_remMulti_cons]; simp only [evalRem]
+      rcases trig (mid m) ((st.remM m k).addDirty (mid m)) with ⟨st', o⟩
+      cases o <;> simp [seqThen, ih]
   | fby a b iha ihb =>
     intro st; rw [run_fby, iha]; simp only [eval]
     rcases eval trig a st with ⟨st', o⟩; cases o <;> simp [seqThen, ihb]
